@@ -6,7 +6,14 @@ import itertools
 from common import Ctx, Failure, cjson, clist, copt, cstr, cz, cnat, corpus_cases, shrink_list
 
 COQ_TARGETS = ["props/P_C03.vo", "corr/Corr_C03.vo"]
-PROOF_FILES = ["proofs/Outcome_proofs.v"]
+PROOF_FILES = ["proofs/Outcome_proofs.v", "proofs/Outcome_sync.v"]
+
+
+def pre_build():
+    """regenerate coq/gen/Outcome_gen.v from /repo's current result.py (fail-closed translator)"""
+    import translate_result
+    translate_result.main()
+
 RULE = ("sequences of outcomes over an alphabet of 5 classes x message/location present, empty or absent x "
         "delays x JSON values: exhaustive up to a length bound, random up to length 40, and random "
         "permutations of each random sequence; a case is non-trivial when it has >=2 elements of >=2 classes; "
@@ -15,7 +22,8 @@ ASSUMPTIONS = [
     "inputs to combine are 'raw': an Ok's data is never the module-private _OkData wrapper (no caller can hold one)",
     "unwrapped_combine inputs are bare JSON values or non-Ok outcomes",
 ]
-TRUSTED = ["functools.reduce folds left to right"]
+TRUSTED = ["functools.reduce folds left to right",
+           "harness/translate_result.py (Python-ast -> Gallina transcription of the five combine methods; conventions in its docstring)"]
 
 SEV = {"DepSkip": 0, "Skip": 1, "Ok": 2, "Retry": 3, "PermFail": 4}
 
